@@ -1,6 +1,6 @@
 // fakeplugin is a scripted ThriftRW plugin used by checks C16 and C17. Invoked
-// as thriftrw-plugin-<name> it loads $FAKEPLUGIN_SCRIPT_DIR/<name>.json (an
-// fplab.Script), serves the framed + enveloped + multiplexed plugin protocol on
+// as thriftrw-plugin-<name> [--instance=<i>] it loads
+// $FAKEPLUGIN_SCRIPT_DIR/<name>.json or <name>@<i>.json (an fplab.Script), serves the framed + enveloped + multiplexed plugin protocol on
 // stdin/stdout with verif/internal/refcodec (never thriftrw's codec), and
 // appends JSON events to $FAKEPLUGIN_LOG (shared, O_APPEND: the line order is
 // the global order of events). It never writes to stderr.
@@ -23,7 +23,8 @@ import (
 )
 
 var (
-	self    string
+	self    string // plugin name: what a conforming handshake reports
+	id      string // fplab.Plugin.ID: name, or name@instance with --instance=<instance>
 	logFile *os.File
 	evN     int
 	script  fplab.Script
@@ -34,7 +35,7 @@ func logEv(e fplab.Event) {
 		return
 	}
 	evN++
-	e.Plugin, e.Pid, e.N, e.T = self, os.Getpid(), evN, time.Now().UnixNano()
+	e.Plugin, e.Pid, e.N, e.T = id, os.Getpid(), evN, time.Now().UnixNano()
 	b, _ := json.Marshal(e)
 	logFile.Write(append(b, '\n')) // one write(2) on an O_APPEND descriptor
 }
@@ -63,6 +64,12 @@ func main() {
 		}
 	}()
 	self = strings.TrimPrefix(filepath.Base(os.Args[0]), "thriftrw-plugin-")
+	id = self
+	for _, a := range os.Args[1:] {
+		if strings.HasPrefix(a, "--instance=") {
+			id = self + "@" + strings.TrimPrefix(a, "--instance=")
+		}
+	}
 	if p := os.Getenv("FAKEPLUGIN_LOG"); p != "" {
 		f, err := os.OpenFile(p, os.O_WRONLY|os.O_APPEND|os.O_CREATE, 0o644)
 		if err == nil {
@@ -70,16 +77,18 @@ func main() {
 		}
 	}
 	logEv(fplab.Event{Ev: fplab.EvStart})
-	b, err := os.ReadFile(filepath.Join(os.Getenv("FAKEPLUGIN_SCRIPT_DIR"), self+".json"))
+	b, err := os.ReadFile(filepath.Join(os.Getenv("FAKEPLUGIN_SCRIPT_DIR"), id+".json"))
 	if err != nil {
 		fatal("script: %v", err)
 	}
 	if err := json.Unmarshal(b, &script); err != nil {
 		fatal("script: %v", err)
 	}
-	// never outlive a wedged host by much
+	// never outlive a wedged host by much (the runner kills the process group
+	// of a host that hits its ceiling, 240 s at most; this is for a runner
+	// that died)
 	go func() {
-		time.Sleep(150 * time.Second)
+		time.Sleep(330 * time.Second)
 		fatal("watchdog")
 	}()
 	serve()
@@ -164,6 +173,9 @@ func perform(step, method string, seqid int32) {
 		// (exit-before-read lands here when the host skipped the step the
 		// plugin was waiting for: the request is read, nothing is sent)
 		exit()
+	case fplab.KFlood:
+		flood(step, &st)
+		exit()
 	case fplab.KGarbageFrame:
 		frame = refcodec.Frame(st.Bytes)
 	case fplab.KGarbageRaw:
@@ -190,9 +202,26 @@ func perform(step, method string, seqid int32) {
 		d = err.Error()
 	}
 	logEv(fplab.Event{Ev: fplab.EvReply, Step: step, Kind: st.Kind, Detail: d})
+	if st.FloodsAfter(step) {
+		logEv(fplab.Event{Ev: fplab.EvFault, Step: step, Kind: fplab.KReplyFlood})
+		flood(step, &st)
+		exit()
+	}
 	if st.Kind == fplab.KExitAfterReply {
 		exit()
 	}
+}
+
+// flood writes the junk of the step in one write: with more than a pipe
+// buffer of it the call returns only when the host has read the junk or has
+// closed its end (EPIPE; SIGPIPE is ignored).
+func flood(step string, st *fplab.Step) {
+	_, err := os.Stdout.Write(fplab.FloodBytes(st.FloodPat, st.Flood))
+	d := ""
+	if err != nil {
+		d = err.Error()
+	}
+	logEv(fplab.Event{Ev: fplab.EvFlood, Step: step, Detail: d})
 }
 
 func writeAll(b []byte, st *fplab.Step) error {
